@@ -73,6 +73,7 @@ def run_case(task):
         if 'slicing' in ob: ex.slicing = ob['slicing']
         if 'libm_axioms' in ob: ex.libm_axioms = ob['libm_axioms']
         if 'libm_mono' in ob: ex.libm_mono = ob['libm_mono']
+        if 'ackermann' in ob: ex.ackermann = ob['ackermann']
         if ob.get('setup'): ob['setup'](ex)
         cap = ob.get('time_cap', 280 if tier == 'quick' else 2400)
         try:
